@@ -142,6 +142,8 @@ def run(chk, repo, tier):
                         'charge tags, block reads / stores, dummy bond, truncation (rules of C11 / C12 re-evaluated)')
     support.ownership_rules(chk, repo, 'C02.R6')
     rule_R7(chk, repo)
+    from . import qnrules
+    qnrules.qnumber_rules(chk, repo, 'C02.R8')
     chk.assume('class invariant used for loads: X.qd is an ndarray, X.qD a list of ndarrays (it is what the stores establish)')
     chk.undecided += ['that numerical blocks vanish', 'that the total charges of a non-zero state survive',
                       'histories beyond "every operation individually re-establishes label / tensor agreement"']
